@@ -89,6 +89,7 @@ func c14Check(c *hx.Ctx, im jlsImage, near int) {
 			c.CountN("branch:N-resets", st.resets)
 			c.CountN("branch:run-interruptions", st.interruptions)
 			c.CountN("branch:runs-ending-at-line-end", st.eolRuns)
+			jlsRunCounters(c, st)
 		}
 	}
 	if near != 0 {
@@ -148,6 +149,7 @@ func c14Run(c *hx.Ctx) {
 		n = 2000
 	}
 	jlsKernels(c, n)
+	jlsRunSegments(c, n)
 
 	// (d) Annex H.3 — first validate the transcription of the published vector with the independent
 	// decoder (it must decode to the H.3 image), then compare the library's encoders with it.
@@ -222,6 +224,11 @@ func c14Run(c *hx.Ctx) {
 			}
 		}
 	}
+	// run-then-jump family
+	jlsRunJumpImages(r, c.Thorough(), func(p int) []int {
+		mx := min(255, ((1<<uint(p))-1)/2)
+		return []int{0, min(2, mx)}
+	}, func(im jlsImage, near int) { c14Check(c, im, near) })
 	// all images up to 2x2 at P=2 (NEAR 0 and 1), sampled 3x3
 	for _, near := range []int{0, 1} {
 		for w := 1; w <= 3; w++ {
